@@ -83,4 +83,36 @@ def buildRange {ρ : Type} (H : ρ → Nat → ρ) (zero : ρ) (s : FState ρ) :
     | none => none
     | some s' => buildRange H zero s' bs
 
+/-! ## `BlockFilter::build_filter_data`: where the service restarts -/
+
+/-- what the service reads from the snapshot -/
+structure View where
+  /-- header by block id -/
+  blk : Nat → Blk
+  /-- `is_main_chain(hash)` -/
+  isMain : Nat → Bool
+  /-- `get_block_hash(number)` -/
+  mainAt : Nat → Nat
+  /-- tip number -/
+  tip : Nat
+
+/-- `while !is_main_chain(header.parent_hash) { header = parent }` (at most `number` steps) -/
+def walkBack (v : View) : Nat → Blk → Blk
+  | 0, h => h
+  | f + 1, h => if v.isMain h.parent then h else walkBack v f (v.blk h.parent)
+
+/-- `start_number`: after the latest built block if it is still on the main chain, else the first
+block of its fork (the block whose parent is on the main chain), else 0 -/
+def startNumber (v : View) (latest : Option Nat) : Nat :=
+  match latest with
+  | none => 0
+  | some id =>
+    if v.isMain id then (v.blk id).number + 1
+    else (walkBack v (v.blk id).number (v.blk id)).number
+
+/-- one pass of `build_filter_data`: main-chain blocks `start_number ..= tip`, in order -/
+def buildFilterData {ρ : Type} (H : ρ → Nat → ρ) (zero : ρ) (v : View) (s : FState ρ) : Option (FState ρ) :=
+  let start := startNumber v s.latest
+  buildRange H zero s ((List.range (v.tip + 1 - start)).map fun i => v.blk (v.mainAt (start + i)))
+
 end CkbVerif.Filter
